@@ -112,10 +112,16 @@ func (r *Req) Quirk(key uint32, val uint64) *Req { r.u8('Q'); r.u32(key); r.u64(
 
 // Src sets the source plan. mode 0 one-shot, 1 fixed chunk, 2 cyclic list.
 func (r *Req) Src(mode uint8, chunk uint32, closeAtEnd, exact bool, list []uint32) *Req {
+	return r.SrcClose(mode, chunk, b2u(closeAtEnd), exact, list)
+}
+
+// SrcClose is Src with an explicit close mode: 0 never closed, 1 closed together
+// with the last byte, 2 closed by a separate empty supply after the last byte.
+func (r *Req) SrcClose(mode uint8, chunk uint32, closeMode uint8, exact bool, list []uint32) *Req {
 	r.u8('S')
 	r.u8(mode)
 	r.u32(chunk)
-	r.u8(b2u(closeAtEnd))
+	r.u8(closeMode)
 	r.u8(b2u(exact))
 	if len(list) > 64 {
 		list = list[:64]
